@@ -317,3 +317,27 @@ func (e *Engine) EnsureInit(pkgPath string) {
 		}
 	}
 }
+
+func init() {
+	indexByte := func(e *Engine, st *St, args []Value, fn *ssa.Function) Value {
+		s := args[0].(*SliceV)
+		c := args[1].(*T)
+		n := e.maxLen(st, s)
+		res := e.c64(-1)
+		for i := n - 1; i >= 0; i-- {
+			ci := e.c64(int64(i))
+			in := e.S.SLt(ci, s.Len)
+			if in.IsFalse() {
+				continue
+			}
+			hit := e.S.And(in, e.S.Eq(e.byteAt(st, s, ci), c))
+			res = e.S.Ite(hit, ci, res)
+		}
+		return res
+	}
+	builtinIntrinsics["internal/bytealg.IndexByte"] = indexByte
+	builtinIntrinsics["internal/bytealg.IndexByteString"] = indexByte
+}
+
+// UF1 applies a named uninterpreted function to one scalar argument.
+func (e *Engine) UF1(name string, arg *T, w int) *T { return e.uf(name, []*T{arg}, w) }
